@@ -11,6 +11,8 @@ case <text…>                                  → ok          (forgets every f
 frame <id> <index|-> <total|-> <hash|-> <datahex|-> <next ids, comma separated|-|[]>   → ok
 del <id>                                      → ok          (the store no longer holds the frame)
 expect …                                      → ok          (oracle bookkeeping of the harness, not modelled)
+flag disableHashVerification true|false       → ok          (the harness sets ipldbindcode.DisableHashVerification, the state
+                                                 `index gsfa` leaves behind; reassembly must not depend on it)
 load <id> <seq>                               → ok <len> <xxhash64> | err:get | err:count | err:hash | hang
 loadnd <id> <seq> <answer of the real code>   → member | notmember:<set>   (duplicate / missing indices: the
                                                  unstable sort may give any element of `Frames.outcomes`)
@@ -102,6 +104,7 @@ def step (st : St) (l : String) : St × String :=
   match words l with
   | "case" :: _ => ({}, "ok")
   | "expect" :: _ => (st, "ok")
+  | "flag" :: _ => (st, "ok")   -- process-wide switches of the real code: the model's answers do not depend on them
   | "frame" :: rest =>
     match parseFrame rest with
     | some (c, f) => ({ st with frames := (c, f) :: st.frames }, "ok")
